@@ -46,6 +46,19 @@ pub const FIXED: &[(&str, &str)] = &[
     ("item63-value-not-found", "let v_y = item63;\nfn main()->bool{ true }"),
     ("item64-member-not-found", "struct V_A(v_a: int)\nlet v_v = V_A(1)::item64;\nfn main()->bool{ true }"),
     ("item200-twice", "let v_y = item200 + item200;\nfn main()->bool{ true }"),
+    ("ok-local-overload-captures-per-call", "struct V_P(v_v: int)\nfn v_mk(v_k: int)->bool{ fn eq(v_x: V_P, v_y: V_P)->bool{ v_x::v_v + v_k == v_y::v_v } V_P(1) != V_P(3) }\nfn main()->bool{ display(v_mk(0)) == true && display(v_mk(2)) == false && display(v_mk(0)) == true }"),
+    ("ok-local-cmp-captures-per-call", "struct V_P(v_v: int)\nfn v_mk(v_k: int)->bool{ fn cmp(v_x: V_P, v_y: V_P)->int{ cmp(v_x::v_v * v_k, v_y::v_v * v_k) } V_P(1) < V_P(3) }\nfn main()->bool{ display(v_mk(1)) == true && display(v_mk(0 - 1)) == false && display(v_mk(1)) == true }"),
+    ("ok-local-to_str-captures-per-call", "struct V_P(v_v: int)\nfn v_mk(v_k: int)->str{ fn to_str(v_x: V_P)->str{ (v_x::v_v + v_k).to_str() } [V_P(1), V_P(2)].to_str() }\nfn main()->bool{ display(v_mk(0)) == \"[1, 2]\" && display(v_mk(10)) == \"[11, 12]\" }"),
+    ("ok-fstring-and-join", "fn main()->bool{ let v_x = 5; display(f\"a{v_x}b{v_x}c\") == \"a5b5c\" && display([\"p\", \"q\", \"r\"].join()) == \"pqr\" && display([\"p\", \"q\"].join(\"-\")) == \"p-q\" }"),
+    ("ok-string-literals", "fn main()->bool{ display(\"plain\") == \"plain\" && display(\"\") == \"\" && (\"a\" + \"\" + \"b\").len() == 2 && display(\"tab\\tquote\\\"\").len() == 10 }"),
+    ("display-three-args", "fn main()->bool{ display(1, \"a\", \"b\") == 1 }"),
+    ("display-method-three-args", "fn main()->bool{ 1.display(\"a\", 2) == 1 }"),
+    ("debug-three-args", "fn main()->bool{ debug(1, \"a\", \"b\") == 1 }"),
+    ("display-zero-args", "fn main()->bool{ display() == 1 }"),
+    ("if-four-args", "fn main()->bool{ if(true, 1, 2, 3) == 1 }"),
+    ("partial-no-args", "fn main()->bool{ partial() == 1 }"),
+    ("sort-three-args", "fn main()->bool{ [1].sort(cmp{int, int}, 3).len() == 1 }"),
+    ("get-five-args", "fn main()->bool{ [1].get(0, 1, 2, 3) == 1 }"),
     ("syntax-error", "fn main()->bool{ (1 + }"),
     ("unknown-type", "fn main()->Sequnce<int>{ [] }"),
     ("empty", ""),
@@ -217,6 +230,11 @@ fn history_pool() -> Vec<String> {
     // a few small texts, some of which fail to compile, to put before the compilation under test
     let mut v: Vec<String> = FIXED.iter().map(|(_, t)| t.to_string()).collect();
     v.push("fn v_q(v_x: int)->int{ v_x + 1 }\nfn main()->bool{ v_q(1) == 2 }".to_string());
+    // rejected texts that stop in the middle of a literal: anything a scratch buffer could retain
+    v.push("let v_s = \"abc\\qdef\";".to_string());
+    v.push("let v_s = \"bc\\u{D800}a\";".to_string());
+    v.push("let v_x = 5;\nlet v_s = f\"<{v_x}tail\\q>\";".to_string());
+    v.push("let v_s = \"unterminated".to_string());
     v
 }
 
@@ -243,8 +261,15 @@ impl Job for TextJob {
             // earlier compilations on this thread, successful or not, under other hasher keys
             let mut rng = Prng::new(sc.seed);
             let n = 1 + rng.below(3);
-            for _ in 0..n {
-                let t = rng.pick(&self.history_pool).clone();
+            for k in 0..n {
+                // the compilation right before the one under test is, half of the time, one that is
+                // rejected in the middle of a literal / declaration (the last four pool entries)
+                let t = if k + 1 == n && rng.chance(1, 2) {
+                    let m = self.history_pool.len();
+                    self.history_pool[m - 1 - rng.below(4) as usize].clone()
+                } else {
+                    rng.pick(&self.history_pool).clone()
+                };
                 let mut env = sc.env.clone();
                 env.compile_layout_seed = rng.next_u64();
                 let _ = crate::engine::compile(&t, &env);
@@ -286,6 +311,12 @@ impl Job for TextJob {
         }
         if sc.env.id_skip_seed != 0 {
             out.probe("scope_ids_skipped");
+        }
+        if i == 0 && sc.label.starts_with("fixed:ok-") {
+            let ok = matches!(&obs, Obs::Accepted { ops, .. } if ops.iter().any(|o| matches!(o, Outcome::Value(v) if v == "true")));
+            if !ok {
+                out.violate(violation(P, P, ("behaviour".into(), format!("{}: compiled program does not behave as its text says", sc.label), format!("{obs:?}").chars().take(300).collect::<String>()), sc));
+            }
         }
         match &self.first {
             None => self.first = Some(obs),
